@@ -339,7 +339,7 @@ fn c11_read_slice() {
 }
 
 //@ harness: c11_read_slice_after_larger_read
-//@   props: C11, C03, C04
+//@   props: C11, C03, C04, C01
 //@   tier: quick
 //@   kind: bounded(one-byte refills; scratch buffer left at length 3 by an earlier, larger read; input of 3 bytes; requested length n symbolic 0..=3)
 //@   fn: de::read::ReadSlice::read_slice on ReaderRead - scratch path on a reader with HISTORY (the scratch buffer only ever grows)
